@@ -126,6 +126,7 @@ func (l *FakeLis) Close() error {
 	// connections still waiting in the accept backlog are reset by the kernel
 	for _, c := range l.q {
 		c.end.p.dead = true
+		c.end.p.closed[1] = true // (never handed to the server: the kernel, not the server, ends its server side)
 	}
 	l.q = nil
 	return nil
